@@ -286,7 +286,7 @@ CONDITIONS = [
                'thorough': {'bounds': {'LREC': 2, 'LREP': 2, 'RECOPS': [0, 1, 2, 3, 4, 5, 6], 'REPOPS': [0, 1, 4, 5, 6]},
                             'timeout': 6000,
                             'shards': [{'fallback': f, 'subst': sb, 'first': x, 'firstrep': y}
-                                       for f, sb in ((1, 5), (3, 1), (0, 0), (2, 6))
+                                       for f, sb in ((1, 5), (3, 1))
                                        for x in (None, 0, 1, 2, 3, 4, 5, 6) for y in (None, 0, 1, 4, 5, 6)] +
                                       [{'fallback': f, 'subst': 0, 'first': x, 'firstrep': y, 'nested': True} for f in (0, 1)
                                        for x in (None, 0, 2, 4) for y in (0, 1, 6)] +
